@@ -41,6 +41,25 @@ theorem immediate_sync_or_wouldblock (delay due now : Int) :
     (immAbsolute due now = .wouldBlock ↔ due > now) ∧ (immAbsolute due now = .ranSync ↔ due ≤ now) := by
   refine ⟨rfl, ?_, ?_, ?_, ?_⟩ <;> simp only [immAbsolute, immRelative] <;> split <;> simp_all <;> omega
 
+/-- **shared_loop_safe.** Any number of actions sharing ONE event-loop thread (`EventLoopScheduler`; items in
+any heap order, with any due times), any interleaving of the loop thread with the disposing threads and the
+clock: no action starts before its due time, and no action disposed before its due time ever starts.  (The
+loop reads each item's own `is_cancelled()` after dequeuing it; `dispose()` flags the item itself.) -/
+theorem shared_loop_safe (order : List Nat) (rank : Nat → Nat) (sch : List Thr2LoopN.Act) :
+    (Thr2LoopN.run ⟨order, rank, .flag⟩ Thr2LoopN.init sch).tooEarly = false ∧
+    (Thr2LoopN.run ⟨order, rank, .flag⟩ Thr2LoopN.init sch).bad = false := by
+  have h := Thr2LoopN.run_J ⟨order, rank, .flag⟩ rfl sch Thr2LoopN.init Thr2LoopN.init_J
+  exact ⟨h.2.2.1, h.2.2.2⟩
+
+/-- **remove_by_due_time_disposes_wrong_item.** Why `dispose()` must flag the item rather than remove it from
+the queue by `PriorityQueue.remove`: with two items of equal due time, disposing item 1 before the due time
+removes item 0 (the first heap entry `==` to it); item 1 stays queued, unflagged, and starts at its due time. -/
+theorem remove_by_due_time_disposes_wrong_item :
+    (Thr2LoopN.run ⟨[0, 1], fun _ => 5, .removeByDue⟩ Thr2LoopN.init
+      [.loop, .loop, .loop, .dispose 1, .loop, .tick 5, .loop, .loop]).bad = true ∧
+    (Thr2LoopN.run ⟨[0, 1], fun _ => 5, .removeByDue⟩ Thr2LoopN.init
+      [.loop, .loop, .loop, .dispose 1, .loop, .tick 5, .loop, .loop]).started 0 = false := by decide
+
 /-! Non-vacuity: actions do start when due and not disposed; a dispose after the wake-up but before the
 `finished` read still prevents the start; a late dispose does not un-start. -/
 example : (run ⟨.timer, false⟩ (init ⟨.timer, false⟩) [2, 0, 0]).started = true := by decide
@@ -49,5 +68,12 @@ example : (run ⟨.evloop, false⟩ (init ⟨.evloop, false⟩) [0, 0, 2, 0, 0, 
 example : (run ⟨.evloop, false⟩ (init ⟨.evloop, false⟩) [0, 0, 1, 2, 0, 0, 0]).started = false := by decide
 example : (run ⟨.evloop, true⟩ (init ⟨.evloop, true⟩) [0, 1, 0]).started = false ∧
     (run ⟨.evloop, true⟩ (init ⟨.evloop, true⟩) [0, 1, 0]).bad = false := by decide
+
+-- shared loop: item 1 (due 3) is disposed at time 2, item 0 (due 2) runs, item 1 is skipped
+example : (Thr2LoopN.run ⟨[0, 1], fun i => if i = 0 then 2 else 3, .flag⟩ Thr2LoopN.init
+    [.loop, .loop, .loop, .tick 2, .dispose 1, .loop, .loop, .loop, .loop, .loop, .tick 3, .loop, .loop, .loop]).started 0 = true ∧
+    (Thr2LoopN.run ⟨[0, 1], fun i => if i = 0 then 2 else 3, .flag⟩ Thr2LoopN.init
+    [.loop, .loop, .loop, .tick 2, .dispose 1, .loop, .loop, .loop, .loop, .loop, .tick 3, .loop, .loop, .loop]).started 1 = false := by
+  decide
 
 end C34
